@@ -15,6 +15,18 @@ BUILD = os.path.join(VERIF, ".build")
 LEAN = os.path.join(VERIF, "lean")
 HARNESS = os.path.join(VERIF, "harness")
 TARGET = os.path.join(BUILD, "harness-target")
+if os.path.realpath(REPO) != "/repo":
+    # evaluation of a scratch copy of the crate (selftest scripts, `vp run --with-repo`): the registered commands never set
+    # TOODEE_REPO.  A private copy of the harness depends on that copy by path and builds into its own target directory.
+    _tag = hashlib.sha256(os.path.realpath(REPO).encode()).hexdigest()[:10]
+    _alt = os.path.join(BUILD, "harness-" + _tag)
+    if not os.path.exists(os.path.join(_alt, "Cargo.toml")):
+        os.makedirs(BUILD, exist_ok=True)
+        shutil.copytree(HARNESS, _alt, ignore=shutil.ignore_patterns("target"), dirs_exist_ok=True)
+        _ct = open(os.path.join(_alt, "Cargo.toml")).read().replace('path = "/repo"', 'path = "%s"' % os.path.realpath(REPO))
+        open(os.path.join(_alt, "Cargo.toml"), "w").write(_ct)
+    HARNESS = _alt
+    TARGET = os.path.join(BUILD, "harness-target-" + _tag)
 DRIVER = os.path.join(LEAN, ".lake", "build", "bin", "tdmodel")
 ALLOWED_AXIOMS = {"propext", "Classical.choice", "Quot.sound"}
 MAX_DEATHS = 6
@@ -64,7 +76,8 @@ def build_harness(profile):
     """Build tdharness against /repo's *current working tree*. Returns (ok, message, binary)."""
     env = dict(os.environ, CARGO_NET_OFFLINE="true", CARGO_TARGET_DIR=TARGET)
     with Lock("cargo-" + profile):
-        stamp = os.path.join(BUILD, "src.hash." + profile)
+        os.makedirs(TARGET, exist_ok=True)
+        stamp = os.path.join(TARGET, "src.hash." + profile)
         cur = repo_hash()
         old = open(stamp).read().strip() if os.path.exists(stamp) else ""
         if cur != old:
